@@ -2,7 +2,7 @@
 # tools/corpus.sh [filter]: run every check against every corpus patch (seeded = must be detected, benign = must be silent)
 # in memory (overlay on a pristine worktree), 12 at a time. Development aid; not a registered command.
 export GOFLAGS=-mod=mod GOPROXY=off GOSUMDB=off GOTOOLCHAIN=local; unset GOWORK
-cd /verif && go build -o bin/mcverif-dev ./cmd/mcverif || exit 2
+cd /verif && go build -o bin/mcverif-corpus ./cmd/mcverif || exit 2
 head=$(git -C /repo rev-parse HEAD)
 [ -d /tmp/pristine ] || git -C /repo worktree add --detach /tmp/pristine HEAD -q
 (cd /tmp/pristine && git checkout -q --detach $head && git checkout -q -- . )
@@ -14,9 +14,9 @@ list=$( (ls -d /verif/seeded/C*/ | sed 's#/$##' | sed 's#^#S #'; ls -d /verif/be
 run1() {
   kind=$1; dir=$2; name=$(basename $dir); slot=$3
   out=/tmp/corpus/$kind-$name.txt
-  ./bin/mcverif-dev -repo /tmp/pristine -verif /tmp/vdev -harness harness-c$slot -prop all -patch $dir/patch.diff > $out 2>&1
+  ./bin/mcverif-corpus -repo /tmp/pristine -verif /tmp/vdev -harness harness-c$slot -prop all -patch $dir/patch.diff > $out 2>&1
   if grep -q "^patch: " $out; then
-    ./bin/mcverif-dev -repo /tmp/pristine_old -verif /tmp/vdev -harness harness-o$slot -prop all -patch $dir/patch.diff > $out.old 2>&1
+    ./bin/mcverif-corpus -repo /tmp/pristine_old -verif /tmp/vdev -harness harness-o$slot -prop all -patch $dir/patch.diff > $out.old 2>&1
     grep -v "A3.restart-resets-outflow\|A7.decision-signer-form" $out.old > $out; echo "OLDBASE" >> $out; rm -f $out.old
   fi
 }
